@@ -221,6 +221,15 @@ static void run_cell(int k, int hist, int ctx, size_t size, int fk, int fkind, i
             libast_dprintf("refused %d\n", 1); libast_print_error("refused %d\n", 2); libast_print_warning("refused %d\n", 3);
             libast_program_name = keep; libast_debug_level = lv;
         }
+        if (hist == 4) {                      /* the same statement once before, its output discarded; the process carries on */
+            int nf = open("/dev/null", O_WRONLY);
+            big = bigarg; outer = (ctx != 3);
+            if (nf >= 0) { dup2(nf, 2); close(nf); }
+            (void) T[k].fn[ctx == 0 ? 0 : (ctx == 1 ? 1 : (ctx == 4 ? 3 : 2))]();
+            fflush(stderr);
+            dup2(ep[1], 2);
+            counter = 0; ELSE_TAKEN = 0;
+        }
         if (fk) { wf_k = fk; wf_kind = fkind; wf_calls = 0; install_fault_stream(); }
         close(ep[1]);
         big = bigarg;
@@ -291,7 +300,7 @@ static void run_cell(int k, int hist, int ctx, size_t size, int fk, int fkind, i
         free(msg);
     }
     printf("%c %s %s %lu out=%s eval=%d ctl=%s val=%d status=%d bytes=%lu text=%d count=%d else=%d ferr=%d garbled=%d fault=%d/%d\n",
-           fk ? 'W' : (hist == 3 ? 'R' : (hist == 2 ? 'A' : (hist ? 'Y' : 'X'))), T[k].name,
+           fk ? 'W' : (hist == 4 ? 'P' : (hist == 3 ? 'R' : (hist == 2 ? 'A' : (hist ? 'Y' : 'X')))), T[k].name,
            CTX[ctx], (unsigned long) size, cls, counter, ctl, got ? res[0] : -1, WIFEXITED(status) ? WEXITSTATUS(status) : -1,
            (unsigned long) total, text, count, ELSE_TAKEN, shared[1], garbled, fk, fkind);
     free(bigarg);
@@ -315,7 +324,7 @@ int main(int argc, char **argv) {
         if (line[0] == 'L' || line[0] == 'S') epoch++;
         if (line[0] == 'L') { libast_debug_level = (unsigned) atoi(line + 2); printf("L %u\n", libast_debug_level); }
         else if (line[0] == 'S') { int b = atoi(line + 2); printf("S %d %d\n", b, (int) libast_set_silent(b ? TRUE : FALSE)); }
-        else if (line[0] == 'X' || line[0] == 'Y' || line[0] == 'A' || line[0] == 'R' || line[0] == 'W') {
+        else if (line[0] == 'X' || line[0] == 'Y' || line[0] == 'A' || line[0] == 'R' || line[0] == 'P' || line[0] == 'W') {
             char nm[64], cx[32]; unsigned long size = 0; int ctx, fk = 0, fkind = 0;
             cx[0] = 0;
             if (sscanf(line + 2, "%63s %31s %lu %d %d", nm, cx, &size, &fk, &fkind) < 1) continue;
@@ -327,7 +336,7 @@ int main(int argc, char **argv) {
                 if (clean_epoch != epoch || clean_k != k) run_cell(k, 0, 0, 0, 0, 0, 1);      /* the fault-free reference first */
                 run_cell(k, 0, ctx, 0, fk, fkind, 0);
             } else
-                run_cell(k, line[0] == 'R' ? 3 : (line[0] == 'A' ? 2 : (line[0] == 'Y')), ctx, (size_t) size, 0, 0, 0);
+                run_cell(k, line[0] == 'P' ? 4 : (line[0] == 'R' ? 3 : (line[0] == 'A' ? 2 : (line[0] == 'Y'))), ctx, (size_t) size, 0, 0, 0);
         }
     }
     free(text);
